@@ -87,7 +87,125 @@ def tus(tier, seed):
     for i in range(0, len(calls), per):
         body = '#include "%s"\nint main(){ install(); Rng rng(seed_from_env()+%d);\n  %s\n}\n' % (whdr, 900 + i, '\n  '.join(calls[i:i + per]))
         res.append(dict(name='C04W_%d' % (i // per), src=body, compiler='clang++' if (tier == 'thorough' and (i // per) % 3 == 1) else 'g++'))
+    # ---------------------------------------------------------------------------------------------------------------
+    # scaled_integer over an elastic_integer / over a native-rounding nest around one: conversion to a coarser (or finer)
+    # exponent and to built-in integers, in particular dropping at least as many digits as the word holding the source
+    # representation is wide (table C04w ecvt, harness C04e.h, model CnlModel/ElasticNarrow.lean)
+    res += etus(tier, seed)
+    return res
+
+
+def etus(tier, seed):
+    ehdr = os.path.join(os.path.dirname(os.path.abspath(__file__)), 'C04e.h')
+    rnd = random.Random(seed * 131 + 45)
+    NW = {'int': (32, True), 'unsigned': (32, False), 'std::int8_t': (8, True), 'std::uint8_t': (8, False), 'std::int16_t': (16, True),
+          'std::uint16_t': (16, False), 'std::int64_t': (64, True)}
+
+    def word(n, nw):          # width of the word holding n digits over narrowest nw
+        w, sg = NW[nw]
+        need = n + (1 if sg else 0)
+        while w < need:
+            w *= 2
+        return w
+
+    def dsts(n, k, sg):      # built-in destinations that hold every quotient (n - k digits, at least none)
+        left = max(n - k, 0)
+        out = []
+        for (t, dg, s) in (('std::int64_t', 63, True), ('std::int32_t', 31, True), ('std::uint64_t', 64, False), ('std::int8_t', 7, True), ('std::uint16_t', 16, False)):
+            if left <= dg and (s or not sg):
+                out.append(t)
+        return out
+
+    # --- bare elastic_integer representations (sanitized units): any k with 1 + k digits available for the divisor
+    bare = []
+    def add_bare(n, nw, k, eD=None, toint=None):
+        sg = NW[nw][1]
+        if k > (126 if sg else 127):
+            return
+        if eD is None:
+            eD = rnd.choice([0, 0, -2, -20, 5])
+        dn = n + max(0, -k)
+        if dn > (63 if sg else 64):
+            return
+        src = 'scaled_integer<elastic_integer<%d, %s>, power<%d>>' % (n, nw, eD - k)
+        bare.append('goe<%s, scaled_integer<elastic_integer<%d, %s>, power<%d>>>(rng);' % (src, dn, nw, eD))
+        if toint is None:
+            toint = rnd.random() < 0.5
+        if toint and k >= 0:
+            ds = dsts(n, k, sg)
+            if ds:
+                bare.append('goe<scaled_integer<elastic_integer<%d, %s>, power<%d>>, %s>(rng);' % (n, nw, -k, rnd.choice(ds)))
+    for (n, nw) in [(7, 'int'), (15, 'int'), (31, 'int'), (63, 'int'), (7, 'unsigned'), (15, 'unsigned'), (31, 'unsigned'), (32, 'unsigned'), (63, 'unsigned'),
+                    (64, 'unsigned'), (7, 'std::int8_t'), (8, 'std::uint8_t'), (15, 'std::int16_t'), (20, 'int'), (40, 'int'), (16, 'std::int8_t')]:
+        w = word(n, nw)
+        ks = set([w - 1, w, w + 1, n, n + 1])
+        ks.add(rnd.choice([1, 2, max(1, n // 2), max(1, n - 1), w - 2]))
+        ks.add(rnd.choice([31, 32, 33, 63, 64, 65, 70, 2 * w - 1, 2 * w, 100, 126]))
+        if rnd.random() < 0.3:
+            ks.add(-rnd.randint(1, 3))
+        for k in sorted(ks):
+            if k != 0:
+                add_bare(n, nw, k)
+    add_bare(31, 'int', 32, 0, True)
+    add_bare(20, 'int', 40, 0, True)
+    add_bare(40, 'int', 70, 0, True)
+    add_bare(63, 'int', 68, -2, False)
+    for _ in range(6 if tier == 'quick' else 60):
+        nw = rnd.choice(['int', 'int', 'unsigned', 'std::int8_t', 'std::int16_t', 'std::uint16_t', 'std::int64_t'])
+        n = rnd.randint(1, 63)
+        add_bare(n, nw, rnd.choice([rnd.randint(1, 126), word(n, nw) + rnd.randint(-1, 1)]))
+
+    # --- nests: overflow_integer<elastic_integer<N>>, static_number<N, E, native_rounding_tag, Tag>
+    ovt = ['saturated_overflow_tag', 'native_overflow_tag', 'trapping_overflow_tag', '_impl::throwing_overflow_tag', 'undefined_overflow_tag']
+    def nest_calls(n, nw, k, kind, tag, eD, toint):
+        sg = NW[nw][1]
+        dn = n + max(0, -k)
+        if kind == 'safe':
+            f = lambda d, e: 'scaled_integer<overflow_integer<elastic_integer<%d, %s>, %s>, power<%d>>' % (d, nw, tag, e)
+        else:
+            f = lambda d, e: 'static_number<%d, %d, native_rounding_tag, %s, %s>' % (d, e, tag, nw)
+        out = ['goe<%s, %s>(rng);' % (f(n, eD - k), f(dn, eD))]
+        if toint and k >= 0:
+            ds = dsts(n, k, sg)
+            if ds:
+                out.append('goe<%s, %s>(rng);' % (f(n, -k), rnd.choice(ds)))
+        return out
+    # sanitized units: at most all the digits dropped (k <= N; an unsigned nest keeps one digit: the library's intermediate
+    # elastic_integer<N - k> has no well-defined numeric_limits below that -- class C11.narrowing_drops_all_digits of C11)
+    nest = []
+    for (n, nw) in [(7, 'int'), (15, 'int'), (31, 'int'), (63, 'int'), (20, 'int'), (40, 'int'), (31, 'unsigned'), (32, 'unsigned'), (63, 'unsigned'), (15, 'std::int16_t')]:
+        sg = NW[nw][1]
+        top = n if sg else n - 1
+        for k in sorted(set([top, top - 1, rnd.randint(1, top), -rnd.randint(1, 2)])):
+            if k == 0:
+                continue
+            kind = rnd.choice(['safe', 'static'])
+            if kind == 'static' and nw not in ('int', 'unsigned'):
+                kind = 'safe'
+            nest += nest_calls(n, nw, k, kind, rnd.choice(ovt), rnd.choice([0, 0, -5, 3]), rnd.random() < 0.4)
+    # units built without the sanitizers: more digits dropped than the source has, up to and beyond the width of its word
+    deep = []
+    for (n, nw, k, kind, tag, eD, ti) in [(20, 'int', 40, 'safe', ovt[0], 0, True), (31, 'int', 32, 'safe', ovt[1], 0, True), (16, 'int', 70, 'safe', ovt[1], -30, False),
+                                          (40, 'int', 70, 'safe', ovt[0], 0, False), (20, 'int', 35, 'static', ovt[0], -5, False), (31, 'int', 50, 'static', ovt[0], -20, True)]:
+        deep += nest_calls(n, nw, k, kind, tag, eD, ti)
+    for (n, nw) in [(7, 'int'), (15, 'int'), (31, 'int'), (63, 'int'), (31, 'unsigned'), (63, 'unsigned'), (7, 'std::int8_t'), (15, 'std::int16_t'), (rnd.randint(1, 62), 'int')]:
+        w = word(n, nw)
+        for k in sorted(set([w - 1, w, w + 1, rnd.choice([n + 1, 2 * w - 1, 2 * w, 63, 64, 70, 100])])):
+            if k <= n or k > 120:
+                continue
+            kind = rnd.choice(['safe', 'static'])
+            if kind == 'static' and nw not in ('int', 'unsigned'):
+                kind = 'safe'
+            deep += nest_calls(n, nw, k, kind, rnd.choice(ovt), rnd.choice([0, 0, -5, 3]), rnd.random() < 0.4)
+    res = []
+    per = 16
+    for (nm, calls, extra) in (('C04E', bare, {}), ('C04EN', nest, {}), ('C04ED', deep, {'nosan': True})):
+        for i in range(0, len(calls), per):
+            body = '#include "%s"\nint main(){ install(); Rng rng(seed_from_env()+%d);\n  %s\n}\n' % (ehdr, 1300 + i, '\n  '.join(calls[i:i + per]))
+            comp = 'clang++' if (tier == 'thorough' and not extra and (i // per) % 3 == 1) else 'g++'
+            res.append(dict(name='%s_%d' % (nm, i // per), src=body, compiler=comp, **extra))
     return res
 
 
 RULE = C01.RULE + "; floating point: all values of 8/16-bit reps, lattice + 200 random for wider reps (to float), and floats around every lattice value +- 0, 1/4, 1/2, 3/4, 1 unit plus structured floats (from float)"
+RULE += "; elastic / safe / static_number representations (C04w ecvt): lattice of the declared digits (0, +-1..3, powers of two and neighbours, max, halves, thirds) + 6 random per instantiation, digits dropped k around the digit count and the word width (w-1, w, w+1), 31..126"
